@@ -111,6 +111,15 @@ CLAIMED = {
         note="Trusted: Coq kernel, translator (shape pin), harness; collision-free digests; C16 and C04 as given; pydantic parsing of list files.",
         technique="Coq proof (induction over the list tree, any adversarial file system) + AST-pinned shape + exhaustive per-file tamper injection on the implementation",
         design="7/C05"),
+    "C06": dict(
+        text="Coq theorems over effect traces (create/write/close/rename/mkdir/remove) and an executable PUBLICATION DISCIPLINE: for every trace satisfying it and every consistent starting disk, EVERY prefix (every crash point, "
+             "every instant a concurrent reader looks, torn write included) leaves every metadata path holding a complete document whose listed shards are complete files with the recorded digest and whose child lists are complete; "
+             "and every reference of a committed document persists. PARTIAL: that the library's sessions satisfy the discipline is not proved for all sessions; it is checked per run: the very boolean `discipline` is evaluated by coqc on the "
+             "effect trace recorded from the real session, the write-temp/close/rename shape of safe_update_file and the close-then-hash-then-list order are pinned from the source, and the forked writer is really killed before "
+             "effects (and inside write calls) after which the directory is audited (valid documents, reopen, iterate: all committed examples, only written ones, checksums).",
+        note="Trusted: Coq kernel, translator (pins), recorder harness (Python-level I/O of fb/npz writers; TFRecord native I/O not visible); atomic rename; crash = prefix of effects with unflushed buffers lost; OS stays up.",
+        technique="Coq proof (invariant over every prefix of a disciplined effect trace) + per-trace validation of the discipline by coqc + kill-based crash injection on the real writer",
+        design="7/C06"),
     "C07": dict(
         text="Coq theorems: sequential chains and the batch loop with an ordered map end by raising whenever some path is unreadable (every position, every T); the lazy pool with a failing input never finishes normally, "
              "cannot deadlock and terminates within 5n+15T+12 queue operations under every schedule (C13). PARTIAL: which damage a decoder rejects is measured; error forwarding of asyncstdlib, tf.data and the Rust reader is "
